@@ -8,12 +8,17 @@
 //
 // One TSV line per case on stdout:
 //
-//	sse <id> <ka_us> <disc> <status> <ctype> <payloads> <raw> <items> <verdict> <handler> <desc>
-//	mp  <id> <boundary> <timeout_us> <disc> <status> <ctype> <payloads> <raw> <items> <batches> <verdict> <handler> <shape> <desc>
+//	sse <id> <ka_us> <disc> <status> <ctype> <payloads> <raw> <items> <verdict> <handler> <desc> <fin>
+//	mp  <id> <boundary> <timeout_us> <disc> <status> <ctype> <payloads> <raw> <items> <batches> <verdict> <handler> <shape> <desc> <fin>
 //	ns  <id> <transport> <status> <ctype> <raw> <verdict> <desc>
 //
 // payloads: comma separated hex of json.Marshal(resp) as the transport receives it (":1"/":0" =
-// hasNext appended for mp). With -race -par 1 every case is announced on stderr ("BEGIN <id>") so a
+// hasNext appended for mp). An operation may END BY A PANIC raised while a response is being built
+// (plan.panicEnd; what a custom scalar's MarshalGQL panicking does): <fin> is then the error response
+// transport.nextResponse must build from what the server's RecoverFunc returns (computed here from the
+// RecoverFunc's return value, not taken from the transport) and it is also the last entry of
+// <payloads>, i.e. <payloads> is always what has to be DELIVERED; <fin> is "-" when no panic was raised.
+// With -race -par 1 every case is announced on stderr ("BEGIN <id>") so a
 // race report can be attributed to the case that was running.
 package main
 
@@ -23,6 +28,7 @@ import (
 	"context"
 	"encoding/hex"
 	"encoding/json"
+	"errors"
 	"flag"
 	"fmt"
 	"io"
@@ -33,10 +39,13 @@ import (
 	"net/http/httptest"
 	"os"
 	"os/exec"
+	"path/filepath"
 	"regexp"
 	"runtime"
+	"sort"
 	"strings"
 	"sync"
+	"sync/atomic"
 	"time"
 
 	"github.com/vektah/gqlparser/v2"
@@ -87,10 +96,79 @@ type plan struct {
 	body      string // request body
 	transport string // for ns
 	shape     bool   // mp: hasNext sequence is true...true,false
+
+	// the operation ends by a panic raised while the response after the last payload is being built
+	panicEnd    bool
+	panicVal    int    // what is thrown: 0 string, 1 error, 2 runtime error, 3 *gqlerror.Error, 4 struct
+	recoverKind int    // the server's RecoverFunc: 0 graphql.DefaultRecover, 1 *gqlerror.Error (message, path, extensions), 2 plain error, 3 nil, 4 wrapped *gqlerror.Error
+	panicMsg    string // text carried by the panic value / the recovered error
 }
 
 type fakeES struct {
-	p *plan
+	p          *plan
+	raised     atomic.Bool  // the planned panic was thrown
+	askedAfter atomic.Int32 // calls of the response handler after it had panicked
+	mu         sync.Mutex
+	expErr     *gqlerror.Error // what nextResponse has to put into the error response
+}
+
+type oddPanic struct {
+	A string
+	B int
+}
+
+func (e *fakeES) throw() {
+	p := e.p
+	e.raised.Store(true)
+	switch p.panicVal {
+	case 1:
+		panic(errors.New("marshal: " + p.panicMsg))
+	case 2:
+		var m map[string]int
+		m[p.panicMsg] = 1 // runtime error: assignment to entry in nil map
+	case 3:
+		panic(&gqlerror.Error{Message: p.panicMsg, Path: ast.Path{ast.PathName("x"), ast.PathIndex(3)}})
+	case 4:
+		panic(oddPanic{p.panicMsg, 7})
+	}
+	panic("boom " + p.panicMsg)
+}
+
+// recoverFunc: the server's RecoverFunc for this plan; records the error the transport has to deliver
+func (e *fakeES) recoverFunc() graphql.RecoverFunc {
+	p := e.p
+	set := func(g *gqlerror.Error) {
+		e.mu.Lock()
+		e.expErr = g
+		e.mu.Unlock()
+	}
+	switch p.recoverKind {
+	case 1:
+		return func(ctx context.Context, v any) error {
+			g := &gqlerror.Error{Message: fmt.Sprint(v) + p.panicMsg, Path: ast.Path{ast.PathName(p.panicMsg), ast.PathIndex(1)},
+				Extensions: map[string]any{"code": p.panicMsg, "n": 1}}
+			set(g)
+			return g
+		}
+	case 2:
+		return func(ctx context.Context, v any) error {
+			err := fmt.Errorf("recovered %v%s", v, p.panicMsg)
+			set(&gqlerror.Error{Message: err.Error()})
+			return err
+		}
+	case 3:
+		return func(ctx context.Context, v any) error {
+			set(&gqlerror.Error{})
+			return nil
+		}
+	case 4:
+		return func(ctx context.Context, v any) error {
+			g := &gqlerror.Error{Message: p.panicMsg + fmt.Sprint(v)}
+			set(g)
+			return fmt.Errorf("wrapped: %w", g)
+		}
+	}
+	return nil
 }
 
 func (e *fakeES) Schema() *ast.Schema { return schema }
@@ -115,8 +193,15 @@ func pause(us int) {
 func (e *fakeES) Exec(ctx context.Context) graphql.ResponseHandler {
 	i := 0
 	return func(ctx context.Context) *graphql.Response {
+		if e.raised.Load() {
+			e.askedAfter.Add(1) // the transport must stop asking once nextResponse reported the panic
+			return nil
+		}
 		if i >= len(e.p.payloads) {
 			pause(e.p.tailUS)
+			if e.p.panicEnd {
+				e.throw()
+			}
 			return nil
 		}
 		if e.p.obeyCtx && ctx.Err() != nil {
@@ -291,6 +376,26 @@ func genSSE(r *rng.R, id int, directed int) *plan {
 		n, p.body, p.desc = 0, `{"query":"{ nope }"}`, "operr"
 	case 8: // subscription operation
 		p.body, p.desc = `{"query":"subscription { s }"}`, "subscription"
+	// a panic while a response is being built (nextResponse turns it into an error event):
+	case 9: // ... the very first response, ping storm around the error event and complete
+		n, p.kaUS, p.tailUS, p.panicEnd, p.desc = 0, 1, 400, true, "panic-initial"
+	case 10: // ... after one good payload
+		n, dclass, p.panicEnd, p.desc = 1, 1, true, "panic-after-1"
+	case 11: // ... after many back-to-back events under a ping storm
+		n, dclass, p.kaUS, p.panicEnd, p.desc = 30, 0, 1, true, "panic-after-burst"
+	case 12: // ... after slow events, subscription
+		n, dclass, p.kaUS, p.panicEnd, p.body, p.desc = 4, 3, 100, true, `{"query":"subscription { s }"}`, "panic-after-slow"
+	}
+	if directed == 0 && r.Below(5) == 0 {
+		p.panicEnd, p.desc = true, "panic"
+		if r.Below(4) == 0 {
+			n = 0
+		} else {
+			n = r.Below(n + 1)
+		}
+	}
+	if p.panicEnd {
+		genPanic(r, p, directed)
 	}
 	for i := 0; i < n; i++ {
 		p.payloads = append(p.payloads, genPayload(r, dclass, false))
@@ -301,9 +406,23 @@ func genSSE(r *rng.R, id int, directed int) *plan {
 	if directed == 0 && r.Below(5) == 0 {
 		p.disc = r.Below(40 + 60*n)
 		p.obeyCtx = r.Bool()
-		p.desc = "disconnect"
+		if p.panicEnd {
+			p.desc = "panic-disconnect"
+		} else {
+			p.desc = "disconnect"
+		}
 	}
 	return p
+}
+
+// genPanic: what is thrown and what the server's RecoverFunc makes of it
+func genPanic(r *rng.R, p *plan, directed int) {
+	p.panicVal = r.Below(5)
+	p.recoverKind = 1 + r.Below(4)
+	if directed != 0 && directed%4 == 1 {
+		p.recoverKind = 0 // graphql.DefaultRecover ("internal system error")
+	}
+	p.panicMsg = genString(r)
 }
 
 var boundaries = []string{"", "", "graphql", "-", "--", "x--y", "B--", "a'b(c)+_,-./:=?", "gq l", "0123456789012345678901234567890123456789012345678901234567890123456789"}
@@ -339,6 +458,31 @@ func genMP(r *rng.R, id int, directed int) *plan {
 		n, noshape, p.desc = 4, 3, "noshape-true-last"
 	case 9: // malformed stream: no payload at all
 		n, noshape, p.desc = 0, 4, "noshape-empty"
+	// a panic while a response is being built; every payload before it said hasNext:true, the error
+	// response nextResponse builds carries no hasNext and must close the stream:
+	case 10: // ... the initial response
+		n, p.panicEnd, p.desc = 0, true, "panic-initial"
+	case 11: // ... the first deferred payload, in the same flush as the initial one
+		n, dclass, p.timeoutUS, p.panicEnd, p.desc = 1, 0, 3000, true, "panic-after-1-same-flush"
+	case 12: // ... the first deferred payload, a tick after the initial one
+		n, dclass, p.timeoutUS, p.tailUS, p.panicEnd, p.desc = 1, 0, 500, 2500, true, "panic-after-1-next-flush"
+	case 13: // ... after many payloads that arrive within one tick
+		n, dclass, p.panicEnd, p.desc = 20, 0, true, "panic-after-one-batch"
+	case 14: // ... a tick between every two payloads
+		n, dclass, p.timeoutUS, p.panicEnd, p.desc = 6, 3, 1000, true, "panic-tick-per-payload"
+	case 15: // ... right at Done
+		n, dclass, p.tailUS, p.panicEnd, p.desc = 3, 2, 0, true, "panic-done-race"
+	}
+	if directed == 0 && r.Below(5) == 0 {
+		p.panicEnd, p.desc = true, "panic"
+		if r.Below(4) == 0 {
+			n = 0
+		} else {
+			n = r.Below(n + 1)
+		}
+	}
+	if p.panicEnd {
+		genPanic(r, p, directed)
 	}
 	t, f := true, false
 	for i := 0; i < n; i++ {
@@ -358,16 +502,23 @@ func genMP(r *rng.R, id int, directed int) *plan {
 		case 3:
 			pl.hasNext = &t
 		}
+		if p.panicEnd {
+			pl.hasNext = &t
+		}
 		p.payloads = append(p.payloads, pl)
 	}
 	p.shape = noshape == 0
-	if p.tailUS == 0 && directed != 5 && r.Below(3) == 0 {
+	if p.tailUS == 0 && directed != 5 && directed != 15 && r.Below(3) == 0 {
 		p.tailUS = genDelay(r, 4)
 	}
 	if directed == 0 && r.Below(6) == 0 {
 		p.disc = r.Below(60 + 80*n)
 		p.obeyCtx = r.Bool()
-		p.desc = "disconnect"
+		if p.panicEnd {
+			p.desc = "panic-disconnect"
+		} else {
+			p.desc = "disconnect"
+		}
 	}
 	return p
 }
@@ -632,6 +783,7 @@ type result struct {
 	raw      []byte
 	payloads []hn
 	handler  string
+	fin      []byte // error response of the planned panic (nil: no panic was raised)
 }
 
 func runCase(p *plan) result {
@@ -642,6 +794,13 @@ func runCase(p *plan) result {
 		srv.AddTransport(transport.SSE{KeepAlivePingInterval: time.Duration(p.kaUS) * time.Microsecond})
 	default:
 		srv.AddTransport(transport.MultipartMixed{Boundary: p.boundary, DeliveryTimeout: time.Duration(p.timeoutUS) * time.Microsecond})
+	}
+	if p.panicEnd {
+		// recoverKind 0: the server keeps graphql.DefaultRecover (prints the value and a stack on stderr,
+		// answers "internal system error")
+		if f := es.recoverFunc(); f != nil {
+			srv.SetRecoverFunc(f)
+		}
 	}
 	var mu sync.Mutex
 	var rec []hn
@@ -727,12 +886,37 @@ func runCase(p *plan) result {
 		res.handler = state
 	}
 	mu.Unlock()
+	if es.raised.Load() {
+		es.mu.Lock()
+		g := es.expErr
+		es.mu.Unlock()
+		if g == nil {
+			g = gqlerror.Errorf("internal system error") // graphql.DefaultRecover
+		}
+		b, err := json.Marshal(&graphql.Response{Errors: gqlerror.List{g}})
+		if err != nil {
+			b = []byte("MARSHAL-ERROR")
+		}
+		res.fin = b
+		if n := es.askedAfter.Load(); n > 0 && res.handler == "ok" {
+			res.handler = fmt.Sprintf("handler-asked-again-after-panic:%d", n)
+		}
+	}
 	return res
 }
 
 func report(p *plan, res result) string {
 	pl := make([]string, 0, len(res.payloads))
 	bodies := make([][]byte, 0, len(res.payloads))
+	fin := "-"
+	if res.fin != nil {
+		// what has to be delivered ends with the error response of the panic (it carries no hasNext)
+		res.payloads = append(append([]hn(nil), res.payloads...), hn{res.fin, false})
+		fin = hx(res.fin)
+		if p.kind == "mp" {
+			fin += ":0"
+		}
+	}
 	for _, q := range res.payloads {
 		s := hx(q.body)
 		if p.kind == "mp" {
@@ -772,7 +956,7 @@ func report(p *plan, res result) string {
 				v = "payload-not-one-line-json"
 			}
 		}
-		return fmt.Sprintf("sse\t%d\t%d\t%d\t%d\t%s\t%s\t%s\t%s\t%s\t%s\t%s", p.id, p.kaUS, p.disc, res.status, ctype, pls, hx(res.raw), join(items), v, res.handler, p.desc)
+		return fmt.Sprintf("sse\t%d\t%d\t%d\t%d\t%s\t%s\t%s\t%s\t%s\t%s\t%s\t%s", p.id, p.kaUS, p.disc, res.status, ctype, pls, hx(res.raw), join(items), v, res.handler, p.desc, fin)
 	case "mp":
 		items, batches, v := mpOracle(res.raw, res.ctype, res.payloads, p.disc >= 0)
 		if res.status != 200 {
@@ -791,7 +975,7 @@ func report(p *plan, res result) string {
 		if _, params, err := mime.ParseMediaType(res.ctype); err == nil && params["boundary"] != "" {
 			bnd = params["boundary"]
 		}
-		return fmt.Sprintf("mp\t%d\t%s\t%d\t%d\t%d\t%s\t%s\t%s\t%s\t%s\t%s\t%s\t%d\t%s", p.id, hx([]byte(bnd)), p.timeoutUS, p.disc, res.status, ctype, pls, hx(res.raw), join(items), join(bs), v, res.handler, shape, p.desc)
+		return fmt.Sprintf("mp\t%d\t%s\t%d\t%d\t%d\t%s\t%s\t%s\t%s\t%s\t%s\t%s\t%d\t%s\t%s", p.id, hx([]byte(bnd)), p.timeoutUS, p.disc, res.status, ctype, pls, hx(res.raw), join(items), join(bs), v, res.handler, shape, p.desc, fin)
 	}
 	// ns: a request the transport answers without opening a stream: one JSON document
 	v := "ok"
@@ -803,6 +987,75 @@ func report(p *plan, res result) string {
 	}
 	return fmt.Sprintf("ns\t%d\t%s\t%d\t%s\t%s\t%s\t%s", p.id, p.transport, res.status, ctype, hx(res.raw), v, p.desc+" "+hx([]byte(p.body)))
 }
+
+// corpusPlan: a directed case kept in /verif/corpus/C12/*.json ("plan": {...}); payload contents come
+// from the seeded generator, everything that makes the case what it is from the file
+type corpusPlan struct {
+	Kind       string `json:"kind"` // sse | mp
+	N          int    `json:"n"`    // good payloads before the end
+	DelayClass int    `json:"delay_class"`
+	KaUS       int    `json:"ka_us"`
+	TimeoutUS  int    `json:"timeout_us"`
+	TailUS     int    `json:"tail_us"`
+	Boundary   string `json:"boundary"`
+	Panic      bool   `json:"panic"`
+	PanicValue int    `json:"panic_value"`
+	Recover    int    `json:"recover"`
+	Msg        string `json:"msg"`
+	Query      string `json:"query"`
+	Desc       string `json:"desc"`
+}
+
+func loadCorpus(dir string, r *rng.R, add func(*plan), nextID func() int) {
+	if dir == "" {
+		return
+	}
+	files, _ := filepath.Glob(filepath.Join(dir, "*.json"))
+	sort.Strings(files)
+	for _, f := range files {
+		b, err := os.ReadFile(f)
+		if err != nil {
+			continue
+		}
+		var doc struct {
+			Plan *corpusPlan `json:"plan"`
+		}
+		if json.Unmarshal(b, &doc) != nil || doc.Plan == nil {
+			continue
+		}
+		c := doc.Plan
+		rr := r.Fork()
+		p := &plan{id: nextID(), kind: c.Kind, disc: -1, body: `{"query":"{ x }"}`, shape: true, kaUS: c.KaUS, timeoutUS: c.TimeoutUS,
+			tailUS: c.TailUS, boundary: c.Boundary, panicEnd: c.Panic, panicVal: c.PanicValue, recoverKind: c.Recover, panicMsg: c.Msg,
+			desc: "corpus:" + strings.TrimSuffix(filepath.Base(f), ".json")}
+		if c.Query != "" {
+			p.body = `{"query":` + string(mustJSON(c.Query)) + `}`
+		}
+		if p.kind != "sse" && p.kind != "mp" {
+			continue
+		}
+		t, fl := true, false
+		for i := 0; i < c.N; i++ {
+			pl := genPayload(rr, c.DelayClass, p.kind == "mp" && i > 0)
+			if p.kind == "mp" {
+				if i < c.N-1 || c.Panic {
+					pl.hasNext = &t
+				} else {
+					pl.hasNext = &fl
+				}
+			}
+			p.payloads = append(p.payloads, pl)
+		}
+		add(p)
+	}
+}
+
+func mustJSON(v any) []byte {
+	b, _ := json.Marshal(v)
+	return b
+}
+
+var corpusDir string
 
 func buildPlans(tier string, seed uint64, nSSE, nMP int) []*plan {
 	r := rng.New(seed ^ 0xC12C12)
@@ -821,13 +1074,14 @@ func buildPlans(tier string, seed uint64, nSSE, nMP int) []*plan {
 	id := 0
 	add := func(p *plan) { plans = append(plans, p); id++ }
 	for rep := 0; rep < reps; rep++ {
-		for d := 1; d <= 8; d++ {
+		for d := 1; d <= 12; d++ {
 			add(genSSE(r.Fork(), id, d))
 		}
-		for d := 1; d <= 9; d++ {
+		for d := 1; d <= 15; d++ {
 			add(genMP(r.Fork(), id, d))
 		}
 	}
+	loadCorpus(corpusDir, r, add, func() int { return id })
 	for i := 0; i < ns; i++ {
 		add(genSSE(r.Fork(), id, 0))
 	}
@@ -945,6 +1199,7 @@ func main() {
 	child := flag.String("child", "", "internal: run these case ids in this process")
 	seq := flag.Bool("seq", false, "one case at a time, announced on stderr (race attribution)")
 	announce := flag.Bool("announce", false, "internal: print BEGIN <id> on stderr before each case")
+	flag.StringVar(&corpusDir, "corpus", "", "directory of directed cases (*.json with a \"plan\")")
 	flag.Parse()
 	log.SetOutput(io.Discard) // the transports log decode errors
 	plans := buildPlans(*tier, *seed, *nSSE, *nMP)
